@@ -460,8 +460,35 @@ pub async fn run_case(backend: &str, seed: u64, rep: &mut Report, ops: &mut Vec<
                 let mut b = w.devices[1].lock().await;
                 let ids: Vec<SecretId> = b.list_secret_ids(&default).await.unwrap_or_default();
                 let o = AccessOptions { folder: Some(default), ..Default::default() };
-                match rng.below(3) {
-                    0 => { if let Ok(ch) = b.create_secret(m, s, o).await { live.entry(default).or_default().insert(ch.id, d.clone()); cx.script.push(format!("remote create {}", ch.id)); model_line = Some(format!("folder merge evs=c:{}:{}", tok.id(&ch.id), tok.val(&d))); } }
+                match rng.below(5) {
+                    3 if !extra_folders.is_empty() => {
+                        // the other device deletes a folder: its documents must leave this device's index with the merge
+                        // prefer a folder that holds secrets (its documents are in this device's index)
+                        let with_docs: Vec<usize> = (0..extra_folders.len()).filter(|i| live.get(&extra_folders[*i]).map(|m| !m.is_empty()).unwrap_or(false)).collect();
+                        let i = if with_docs.is_empty() { rng.below(extra_folders.len() as u64) as usize } else { *rng.pick(&with_docs) };
+                        let id = extra_folders[i];
+                        if with_docs.is_empty() {
+                            // make sure the folder has a document in this device's index before the remote delete arrives
+                            drop(b);
+                            { let mut a0 = w.devices[0].lock().await; let (m3, s3) = mk_secret(&mut rng, "doomed"); let d3 = content_digest(&m3, &s3).await; if let Ok(ch) = a0.create_secret(m3, s3, AccessOptions { folder: Some(id), ..Default::default() }).await { live.entry(id).or_default().insert(ch.id, d3); } }
+                            let _ = w_sync(&w, 0).await; let _ = w_sync(&w, 1).await; let _ = w_sync(&w, 1).await;
+                            b = w.devices[1].lock().await;
+                        }
+                        let n_docs = live.get(&id).map(|m| m.len()).unwrap_or(0);
+                        if b.delete_folder(&id).await.is_ok() { extra_folders.remove(i); live.remove(&id); cx.script.push(format!("remote delete_folder {id} ({n_docs} secrets)")); cx.rep.count(if n_docs > 0 { "op:remote-delete-folder-with-secrets" } else { "op:remote-delete-folder-empty" }); }
+                    }
+                    4 => {
+                        // the other device creates a folder with a secret
+                        if let Ok(fc) = b.create_folder(NewFolderOptions::new(format!("remote-folder-{}", rng.below(1000)))).await {
+                            let id = *fc.folder.id();
+                            let o2 = AccessOptions { folder: Some(id), ..Default::default() };
+                            let mut m2 = BTreeMap::new();
+                            if let Ok(ch) = b.create_secret(m, s, o2).await { m2.insert(ch.id, d.clone()); }
+                            live.insert(id, m2); extra_folders.push(id);
+                            cx.script.push(format!("remote create_folder {id}")); cx.rep.count("op:remote-create-folder");
+                        }
+                    }
+                    0 | 3 => { if let Ok(ch) = b.create_secret(m, s, o).await { live.entry(default).or_default().insert(ch.id, d.clone()); cx.script.push(format!("remote create {}", ch.id)); model_line = Some(format!("folder merge evs=c:{}:{}", tok.id(&ch.id), tok.val(&d))); } }
                     1 if !ids.is_empty() => { let id = *rng.pick(&ids); if b.update_secret(&id, m, Some(s), o).await.is_ok() { if live.get(&default).map(|m| m.contains_key(&id)).unwrap_or(false) { live.entry(default).or_default().insert(id, d.clone()); } cx.script.push(format!("remote update {id}")); model_line = Some(format!("folder merge evs=u:{}:{}", tok.id(&id), tok.val(&d))); } }
                     _ if !ids.is_empty() => { let id = *rng.pick(&ids); if b.delete_secret(&id, o).await.is_ok() { live.entry(default).or_default().remove(&id); cx.script.push(format!("remote delete {id}")); model_line = Some(format!("folder merge evs=d:{}", tok.id(&id))); } }
                     _ => {}
@@ -469,8 +496,16 @@ pub async fn run_case(backend: &str, seed: u64, rep: &mut Report, ops: &mut Vec<
             }
             if std::env::var("HTRACE").is_ok() { eprintln!("  two: syncs"); }
             // device 0 must first push its own state so that the remote edit fast-forwards
-            let r0 = w_sync(&w, 0).await; let r1 = w_sync(&w, 1).await; let r2 = w_sync(&w, 0).await;
-            cx.script.push(format!("sync d0 {:?} d1 {:?} d0 {:?}", r0, r1, r2));
+            // a folder created on the other device travels through the account log first; its own log is only compared
+            // from the following sync on (on the creating device as well as on the receiving one): two syncs each
+            let r0 = w_sync(&w, 0).await; let r1 = w_sync(&w, 1).await; let _ = w_sync(&w, 1).await; let r2 = w_sync(&w, 0).await;
+            let r3 = w_sync(&w, 0).await;
+            cx.script.push(format!("sync d0 {:?} d1 {:?} d0 {:?} d0 {:?}", r0, r1, r2, r3));
+            if std::env::var("FDEBUG").is_ok() {
+                let sl = w.server_logs().await; let d0 = w.device_logs(0).await; let d1 = w.device_logs(1).await;
+                for (n, l) in &sl { if n.starts_with("folder:") { eprintln!("FDEBUG {n}: server={} d0={:?} d1={:?}", l.len(), d0.get(n).map(|x| x.len()), d1.get(n).map(|x| x.len())); } }
+                let a0 = w.devices[0].lock().await; for f in a0.list_folders().await.unwrap_or_default() { eprintln!("FDEBUG d0 lists {} {}", f.id(), f.name()); }
+            }
             // only a clean fast-forward is replayed on the model; conflicts are the sync harness's subject
             if r0.as_deref() != Ok("ok") || r1.as_deref() != Ok("ok") || r2.as_deref() != Ok("ok") { model_line = None; model_ok = false; }
             a = w.devices[0].lock().await;
